@@ -138,10 +138,41 @@ Theorem C15_lookup_by_frequency : forall (s : st) f d,
 Proof. exact uplink_channel_index_spec. Qed.
 Print Assumptions C15_lookup_by_frequency.
 
+(* by frequency + data-rate (code after the fix for finding C15-6): the answer matches; an
+   error exactly when NO channel matches; default channels are preferred, and the first
+   channel of the class is returned *)
 Theorem C15_lookup_by_frequency_dr : forall (s : st) f dr i,
   get_uplink_channel_index_for_frequency_dr s f dr = Ok i -> matches_freq_dr (up s) f dr i = true.
 Proof. exact uplink_channel_index_for_frequency_dr_sound. Qed.
 Print Assumptions C15_lookup_by_frequency_dr.
+
+Theorem C15_lookup_by_frequency_dr_complete : forall (s : st) f dr i,
+  matches_freq_dr (up s) f dr i = true -> exists j, get_uplink_channel_index_for_frequency_dr s f dr = Ok j.
+Proof. exact uplink_channel_index_for_frequency_dr_complete. Qed.
+Print Assumptions C15_lookup_by_frequency_dr_complete.
+
+Theorem C15_lookup_by_frequency_dr_spec : forall (s : st) f dr,
+  match get_uplink_channel_index_for_frequency_dr s f dr with
+  | Ok i => matches_freq_dr (up s) f dr i = true /\
+            ((class_dr (up s) f dr true i = true /\ forall j, 0 <= j < i -> class_dr (up s) f dr true j = false) \/
+             (class_dr (up s) f dr false i = true /\ (forall j, class_dr (up s) f dr true j = false) /\
+              forall j, 0 <= j < i -> class_dr (up s) f dr false j = false))
+  | Err => forall i, matches_freq_dr (up s) f dr i = false
+  | _ => False
+  end.
+Proof. exact uplink_channel_index_for_frequency_dr_spec. Qed.
+Print Assumptions C15_lookup_by_frequency_dr_spec.
+
+(* before the fix: two custom channels 868.3 MHz DR6 and 868.3 MHz DR7, lookup (868.3 MHz, DR7) *)
+Theorem C15_lookup_by_frequency_dr_prefix_refuted :
+  let c1 := mkChannel 868300000 6 6 true true in
+  let c2 := mkChannel 868300000 7 7 true true in
+  let s := mkSt true 0 5 [c1; c2] [c1; c2] [] in
+  get_uplink_channel_index_for_frequency_dr_prefix s 868300000 7 = Err /\
+  matches_freq_dr (up s) 868300000 7 1 = true /\
+  get_uplink_channel_index_for_frequency_dr s 868300000 7 = Ok 1.
+Proof. exact frequency_dr_prefix_refuted. Qed.
+Print Assumptions C15_lookup_by_frequency_dr_prefix_refuted.
 
 (* ---- CFList content ------------------------------------------------------------------------ *)
 
